@@ -1,6 +1,7 @@
 """C08 — concurrent operations never strand or duplicate an order."""
 from . import conc
 from .concprop import *
+from . import c03
 from .c03 import CoqJudges
 
 
@@ -174,4 +175,5 @@ def run(tier, seed, replay=None):
         "C08", tier, seed, replay,
         judges=[("handed out exactly once", judge_handout),
                 ("draining match", judge_drain)],
-        n_quick=2500, n_thorough=60000, extra_obligations=extra, flags="drain,mode=O,proj=map+tk")
+        n_quick=2500, n_thorough=60000, extra_obligations=extra, flags="drain,mode=O,proj=map+tk",
+        extra_lines=lambda rng, tier: [l.replace("|drain,mode=O", "|drain,mode=O,proj=map+tk") for l in c03.extra_lines(rng, tier)])
